@@ -17,12 +17,44 @@ open Poetry Generic
 theorem x_parse_wellformed (s : String) (c : GC) (h : parseExtraConstraint s = .ok c) : c.wfX = true :=
   parseExtra_wfX s c h
 
-/-- The single-valued counterpart: whatever `parse_constraint` returns that mentions only `==`/`!=` is `wfG`.
-NOT proved (a clause list may pass through `in`/`not in` atoms that an `==` clause then absorbs, so the proof
-needs a wider invariant than `wfG`); instances are checked by `decide` in the examples and on every
-correspondence run (the parser's dump is compared with the real one). -/
-def g_parse_wellformed_full_statement : Prop :=
-  ∀ (s : String) (c : GC), parseConstraint s = .ok c → c.frag = true → c.wfG = true
+/-- **Everything `parse_constraint` returns is well-formed** for the four-operator shape `wf4` (plain atoms, a
+`MultiConstraint` of negative atoms, non-empty unions) and contains no `MultiConstraint` / `UnionConstraint`
+of nothing — for every input string. -/
+theorem g4_parse_wellformed (s : String) (c : GC) (h : parseConstraint s = .ok c) :
+    c.wf4 = true ∧ c.nondeg = true := parse_wf4 s c h
+
+/-- … hence whatever `parse_constraint` returns that mentions only `==`/`!=` is `wfG` (the invariant of the
+`==`/`!=` theorems below), although a clause list may pass through `in`/`not in` atoms on the way. -/
+theorem g_parse_wellformed (s : String) (c : GC) (h : parseConstraint s = .ok c) (hf : c.frag = true) :
+    c.wfG = true := GC.wfG_of_wf4_frag (parse_wf4 s c h).1 hf
+
+example : ∃ c, parseConstraint "'b' in, ==abc || !=a, !=c" = .ok c ∧ c.frag = true ∧
+    c = .union [.atom ⟨"abc", .eq, false⟩, .multi false [⟨"a", .ne, false⟩, ⟨"c", .ne, false⟩]] :=
+  ⟨_, rfl, by decide, rfl⟩
+
+theorem x_parse_nondegenerate (s : String) (c : GC) (h : parseExtraConstraint s = .ok c) : c.nondeg = true :=
+  parseExtra_nondeg s c h
+
+/-- **No `MultiConstraint` / `UnionConstraint` of nothing is ever returned** (`g_result_wellformed`): on
+well-formed, non-degenerate operands — in particular on everything the parsers return, and then on every result —
+`intersect`, `union` and (where it returns) `invert` produce non-degenerate objects.  Single-valued variant, all
+four operators (`ncCompat` only excludes the test-pinned `not in` ∪ `not in` call site, see below; it holds for
+all `==`/`!=` operands, `ncCompat_of_frag`). -/
+theorem g_result_wellformed (a b : GC) (ha : a.wf4 = true) (hb : b.wf4 = true) (hna : a.nondeg = true)
+    (hnb : b.nondeg = true) :
+    (∃ r, a.intersect b = .ok r ∧ r.nondeg = true) ∧
+    (a.ncCompat b = true → ∃ r, a.unionWith b = .ok r ∧ r.nondeg = true) ∧
+    (∀ r, a.invert = .ok r → r.nondeg = true ∧ r.wf4 = true) :=
+  ⟨GC.intersect_nondeg4 a b ha hb hna hnb, fun hc => GC.unionWith_nondeg4 a b ha hb hc hna hnb,
+   fun r h => ⟨GC.invert_nondeg a r hna h, GC.invert_wf4 a r ha hna h⟩⟩
+
+/-- the same for the `extra` variant -/
+theorem x_result_wellformed (a b : GC) (ha : a.wfX = true) (hb : b.wfX = true) (hna : a.nondeg = true)
+    (hnb : b.nondeg = true) :
+    (∃ r, a.intersect b = .ok r ∧ r.nondeg = true) ∧ (∃ r, a.unionWith b = .ok r ∧ r.nondeg = true) ∧
+    (∀ r, a.invert = .ok r → r.nondeg = true) :=
+  ⟨GC.intersect_nondegX a b ha hb hna hnb, GC.unionWith_nondegX a b ha hb hna hnb,
+   fun r h => GC.invert_nondeg a r hna h⟩
 
 /-- **Membership is never an error and is the denotation**: `c.allows(Constraint(v))` for every
 constraint object and every string. -/
@@ -116,6 +148,70 @@ theorem x_is_any_sound (c : GC) (h : c.isAny = true) (E : String → Bool) : c.d
 theorem x_is_empty_sound (c : GC) (h : c.isEmpty = true) (E : String → Bool) : c.denX E = false := by
   match c, h with
   | .s .empty, _ => rfl
+
+/-! ### All four operators (`==`, `!=`, `in`, `not in`; substring semantics `den`), single-valued variant
+
+These go beyond what C16 states; they hold since the `in`/`not in` repair of the algebra (poetry-core 3372536) and
+feed the marker properties (reversed-operand leaves such as `"tegra" in platform_release`). -/
+
+/-- **Intersection is defined and exact for all four operators.** -/
+theorem g4_intersect_exact (a b : GC) (ha : a.wf4 = true) (hb : b.wf4 = true) :
+    ∃ r, a.intersect b = .ok r ∧ r.wf4 = true ∧ ∀ v, r.den v = (a.den v && b.den v) :=
+  GC.intersect_4 a b ha hb
+
+example : ∃ a b r, parseConstraint "!=64, 'arm' not in" = .ok a ∧ parseConstraint "'64' in || x86" = .ok b ∧
+    a.intersect b = .ok r ∧
+    r = .union [.multi false [⟨"64", .in_, false⟩, ⟨"64", .ne, false⟩, ⟨"arm", .nc, false⟩],
+                .atom ⟨"x86", .eq, false⟩] := ⟨_, _, _, rfl, rfl, rfl, rfl⟩
+
+/-- **Union is defined and exact for all four operators**, provided no top-level member pair of the operands hits
+the one remaining wrong shortcut (`ncCompat`: no two `not in` atoms neither of whose values contains the other). -/
+theorem g4_union_exact (a b : GC) (ha : a.wf4 = true) (hb : b.wf4 = true) (hc : a.ncCompat b = true) :
+    ∃ r, a.unionWith b = .ok r ∧ r.wf4 = true ∧ ∀ v, r.den v = (a.den v || b.den v) :=
+  GC.unionWith_4 a b ha hb hc
+
+example : ∃ a b, parseConstraint "!=aarch64, !=AMD64" = .ok a ∧ parseConstraint "'64' in" = .ok b ∧
+    a.wf4 = true ∧ b.wf4 = true ∧ a.ncCompat b = true ∧
+    a.unionWith b = .ok (.union [.multi false [⟨"aarch64", .ne, false⟩, ⟨"AMD64", .ne, false⟩],
+                                  .atom ⟨"64", .in_, false⟩]) :=
+  ⟨_, _, rfl, rfl, by decide, by decide, by decide, rfl⟩
+
+/-- `ncCompat` costs nothing in the `==`/`!=` fragment. -/
+theorem g4_ncCompat_of_fragment (a b : GC) (ha : a.frag = true) : a.ncCompat b = true := ncCompat_of_frag a b ha
+
+/-- **The remaining wrong call site, exactly** (`Constraint.union`, branch `ops in ({"!="}, {"not in"})`; pinned by
+`tests/constraints/generic/test_constraint.py::test_union[…'tegra' not in, 'rpi' not in → AnyConstraint()]`, known
+finding `notin-union-notin-any`): for two plain atoms the union is exact if and only if they are not two `not in`
+atoms neither of whose values is a substring of the other. -/
+theorem g4_atom_union_exact_iff (a o : Atom) (ha : a.x = false) (ho : o.x = false) :
+    (∃ r, a.unionA o = .ok r ∧ ∀ v, r.den v = (a.den v || o.den v)) ↔ ncClash a o = false :=
+  Atom.unionA_exact_iff a o ha ho
+
+/-- the witness: `'tegra' not in` ∪ `'rpi' not in` is `AnyConstraint`, yet `"tegrarpi"` is admitted by neither. -/
+theorem g4_union_notin_notin_counterexample :
+    ∃ a b r, parseConstraint "'tegra' not in" = .ok a ∧ parseConstraint "'rpi' not in" = .ok b ∧
+      a.wf4 = true ∧ b.wf4 = true ∧ a.ncCompat b = false ∧ a.unionWith b = .ok r ∧ r = .any ∧
+      a.den "tegrarpi" = false ∧ b.den "tegrarpi" = false ∧ r.den "tegrarpi" = true :=
+  ⟨_, _, _, rfl, rfl, by decide, by decide, by decide, rfl, rfl, by decide, by decide, by decide⟩
+
+/-- **"allows all" / "allows any" are never wrong for any constraint objects at all** (all four operators,
+including the conservative `True` answers of `allows_any` for multi-constraints). -/
+theorem g4_allows_all_sound (a b : GC) (h : a.allowsAll b = true) (v : String) (hv : b.den v = true) :
+    a.den v = true := GC.allowsAll_sound4 a b h v hv
+
+theorem g4_allows_any_sound (a b : GC) (h : a.allowsAny b = false) (v : String) :
+    ¬ (a.den v = true ∧ b.den v = true) := by
+  rintro ⟨h1, h2⟩
+  rw [GC.allowsAny_sound4 a b v h1 h2] at h
+  cases h
+
+example : ∃ a b, parseConstraint "'ab' in" = .ok a ∧ parseConstraint "'b' not in || !=abc, 'c' in" = .ok b ∧
+    a.allowsAny b = true ∧ a.allowsAll b = false := ⟨_, _, rfl, rfl, by decide, by decide⟩
+
+/-- inversion for all four operators is `g_invert_exact` (no hypothesis); it also stays inside `wf4`, see
+`g_result_wellformed`. -/
+theorem g4_invert_exact (a r : GC) (h : a.invert = .ok r) (v : String) : r.den v = !a.den v :=
+  GC.invert_G a r h v
 
 /-! ### What is false of the code (the model mirrors it): concrete witnesses, replayed on poetry-core -/
 
